@@ -246,10 +246,11 @@ H("c12_mp_consumers_o1", L, "C12", ["C12", "C01", "C02", "C03", "C06"], "quick",
 H("c12_bc_consumers_o1", L, "C12", ["C12", "C01", "C02", "C03", "C06"], "thorough",
   "broadcast: consumers of one stream 1->2->1 during traffic", "N=2, budget 2")
 for n, w in (("c13_mp_one", "mpmc, one receiver handle"), ("c13_mp_two_handles", "mpmc, two handles of one stream"),
-             ("c13_bc_two_streams", "broadcast, two streams"), ("c13_bc_two_handles", "broadcast N=1, two handles of one stream")):
+             ("c13_bc_two_streams", "broadcast, two streams, two senders"), ("c13_bc_two_handles", "broadcast N=1, two handles of one stream"),
+             ("c13_bc_two_streams_rx0first", "broadcast N=1, two streams, stream 0 removed first")):
     H(n, L, "C13", ["C13"], "quick",
-      w + ": every receiver dropped (order, queued value, second sender symbolic), then try_send on every sender",
-      "sequential; symbolic: queued value yes/no, second sender yes/no, drop order", rules=ADDRULES)
+      w + ": every receiver dropped, then try_send on every sender must hand the value back as Disconnected; symbolic: value queued or not, reclamation-epoch announcement pending or not",
+      "sequential; drop order and number of senders are harness parameters", rules=ADDRULES)
 
 # ---- blocking receive
 W = "scen_wait"
